@@ -28,6 +28,17 @@ int    g_registered;     /* ... while this is 1 */
 int    g_unknown_lookups; /* HAatom_object calls that returned NULL */
 
 /* --------------------------------- stubs ----------------------------------- */
+#ifdef H4V_CBMC
+/* calloc never fails in these histories (the allocation-failure path of HIget_bitfile_rec is not
+   what they are about): with cbmc's may-fail model the record's fields become
+   `failed ? 0 : value` after Hstartbit*, nothing folds any more and the recursion
+   Hbitwrite -> HIread2write -> Hbitseek -> HIbitflush -> Hbitwrite is unfolded to the bound. */
+void *
+calloc(size_t n, size_t s)
+{
+    return __CPROVER_allocate(n * s, 1);
+}
+#endif
 int
 HAinit_group(group_t grp, unsigned hash_size)
 {
